@@ -276,9 +276,27 @@ func init() {
 	typeSignature = declarationType
 }
 
+// maxDepth is the number of lists, maps and tuples a signature can
+// nest.
+const maxDepth = 128
+
 // Parse reads a signature contained in a string and constructs its
 // type representation.
 func Parse(input string) (Type, error) {
+	// the parser is recursive: a signature received from a peer must
+	// not decide of the depth of the stack.
+	depth := 0
+	for _, c := range input {
+		switch c {
+		case '[', '{', '(':
+			depth++
+			if depth > maxDepth {
+				return nil, fmt.Errorf("signature nested too deep (more than %d levels)", maxDepth)
+			}
+		case ']', '}', ')':
+			depth--
+		}
+	}
 	text := []byte(input)
 
 	root, rest := typeSignature(parsec.NewScanner(text))
